@@ -123,6 +123,17 @@ def run(v, O):
             back = Quantity(r, w).to(u).value()
             for i, x in enumerate(xs):
                 out.append((f'{xs} {u} -> {w} -> {u}: element {i}', O.same(math.isfinite(float(back[i])), True) and O.eq(float(back[i]) / x if x > 0 else float(back[i]), 1.0 if x > 0 else 0.0, 1e-9)))
+    for w, a, b, scale in v.subtractions:
+        try:
+            d = Quantity(np.array(a, dtype=float), w) - Quantity(np.array(b, dtype=float) if isinstance(b, list) else b, w)
+            vals = np.asarray(d.value(), dtype=float)
+        except Exception as e:
+            out.append((f'{a} {w} - {b} {w}: element-wise power difference', O.same(type(e).__name__, None)))
+            continue
+        out.append((f'{a} {w} - {b} {w}: one level per element', O.same(vals.shape, (len(a),))))
+        for i in range(len(a)):
+            bi = b[i] if isinstance(b, list) else b
+            out.append((f'{a} {w} - {b} {w}: element {i}', O.eq(float(vals[i]), scale * math.log10(10 ** (a[i] / scale) - 10 ** (bi / scale)), 1e-9)))
     for u, w, text in v.decimals:
         x = Decimal(text)
         want = x * 9 / 5 + 32 if (u, w) == ('Cel', 'degF') else (x - 32) * 5 / 9
@@ -138,6 +149,7 @@ def run(v, O):
 '''
 EDGE_ARRAYS = [('mW', 'dBm', [0.0, 1.0, 100.0], 1.0, 10.0), ('W', 'dBm', [1e-30, 1.0, 100.0], 1e-3, 10.0), ('W', 'dBW', [1e-20, 0.0], 1.0, 10.0), ('PR', 'dB', [0.0, 1.0, 1e-25], 1.0, 10.0),
                ('V', 'dBV', [0.0, 1.0, 10.0], 1.0, 20.0), ('V', 'dBV', [1e-20, 2.0], 1.0, 20.0), ('mW', 'dBm', [3.0], 1.0, 10.0)]
+EDGE_SUBTRACTIONS = [('dBA', [87., 90.], [83., 80.], 10.0), ('dBm', [20., 30., 40.], [10., 10., 39.], 10.0), ('B', [[2., 3.], [4., 5.]][0], [1., 1.], 1.0), ('dBA', [87., 90.], 80., 10.0), ('dB', [3.], [1.], 10.0)]
 EDGE_DECIMALS = [('Cel', 'degF', '20'), ('Cel', 'degF', '-40'), ('Cel', 'degF', '36.6'), ('degF', 'Cel', '68'), ('degF', 'Cel', '-40'), ('degF', 'Cel', '98.6'), ('Cel', 'degF', '0')]
 ARRADD_SRC = '''
 def run(v, O):
@@ -254,7 +266,7 @@ def scenarios(tier, seed):
                           what=f'element-wise level addition of arrays in {w}', samples=2))
     for w1, w2 in (('B', 'Np'), ('Np', 'B'), ('dB', 'Np'), ('dB', 'cNp'), ('cNp', 'dB'), ('dNp', 'B'), ('B', 'dNp')):
         S.append(Scenario(f'roundtrip/{w1}<->{w2}', RT_SRC, {'y': 'real'}, consts={'w1': w1, 'w2': w2}, preamble=PRE, what=f'level conversion {w1} -> {w2} -> {w1}', samples=2))
-    S.append(Scenario('edge-inputs', EDGE_SRC, {}, consts={'arrays': EDGE_ARRAYS, 'decimals': EDGE_DECIMALS}, preamble=PRE, what='arrays containing a zero or a tiny ratio converted to levels; Decimal temperatures (concrete)', samples=1))
+    S.append(Scenario('edge-inputs', EDGE_SRC, {}, consts={'arrays': EDGE_ARRAYS, 'decimals': EDGE_DECIMALS, 'subtractions': EDGE_SUBTRACTIONS}, preamble=PRE, what='arrays containing a zero or a tiny ratio converted to levels; Decimal temperatures (concrete)', samples=1))
     S.append(Scenario('canary/temp', TEMP_SRC, {'x': 'real'}, ['v.x >= 0'], consts={'u': 'Cel', 'w': 'degR'}, preamble=PRE.replace('273.15', '273.25'), canary=True))
     S.append(Scenario('canary/log', LOG_SRC, R2, ['v.x > 0'], consts={'u': 'W', 'w': 'dBm', 'k': 2, 'ref': 1e-3, 'scale': 10.0, 'kind': 'log10'}, preamble=PRE, canary=True))
     S.append(Scenario('canary/add', ADD_SRC, {'a': 'real', 'b': 'real'}, consts={'w': 'dBm', 'scale': 20.0}, preamble=PRE, canary=True))
